@@ -132,6 +132,12 @@ class Report:
             "new_violations": [v["key"] for v in new],
             "notes": self.notes[:40],
         }
+        if tree is not None:
+            cov["normalisation"] = {
+                "reference_snapshot": "sa/reference_names.json.gz (identifier snapshot of the tree the rules were written for)",
+                "renames_undone": list(getattr(tree, "renames", []))[:80],
+                "helpers_inlined_constants_propagated_loops_unrolled_idioms_normalised": list(getattr(tree, "inlined", []))[:80],
+            }
         cov.update(self.extra)
         ev = {
             "property_id": self.pid,
